@@ -21,6 +21,22 @@ func TestVerifC09Measure(t *testing.T) {
 	rr := &c09Runner{deadline: time.Now().Add(time.Hour)}
 	defer rr.close()
 	for _, ph := range plan {
+		if os.Getenv("SKIPREL") != "" {
+			for i := range ph.Items {
+				ph.Items[i].SkipRel = true
+			}
+		}
+		cnt := map[string]int{}
+		for _, it := range ph.Items {
+			cnt[it.Family]++
+		}
+		t.Logf("phase %s families: %v", ph.Name, cnt)
+		if os.Getenv("ONLY") != "" && os.Getenv("ONLY") != ph.Name {
+			continue
+		}
+		famE := map[string]int64{}
+		famN := map[string]int{}
+		defer func(name string) { t.Logf("%s per-family sampled execs: %v n=%v", name, famE, famN) }(ph.Name)
 		var execs int64
 		var secs float64
 		n := 0
@@ -29,6 +45,8 @@ func TestVerifC09Measure(t *testing.T) {
 		for i := 0; i < len(ph.Items); i += stride {
 			res := rr.run(ph.Items[i])
 			execs += res.Res.Executions
+			famE[ph.Items[i].Family] += res.Res.Executions
+			famN[ph.Items[i].Family]++
 			secs += res.Secs
 			n++
 			if res.Res.Executions > maxE {
